@@ -89,18 +89,18 @@ type Voter struct {
 }
 
 type Prop struct {
-	Hash                      string
-	Status                    string // voting | frozen
-	Start, End, Apply         int64
-	Total, Majority           int64
-	Voters                    map[string]*Voter
-	Options                   []string
-	Votes                     []int64
-	Major                     string
-	MajorCands                []string // options tied for the top that reach the majority (the statement leaves ties open)
-	HasMajor                  bool
-	OptType                   int32
-	CreatedAt                 int64
+	Hash              string
+	Status            string // voting | frozen
+	Start, End, Apply int64
+	Total, Majority   int64
+	Voters            map[string]*Voter
+	Options           []string
+	Votes             []int64
+	Major             string
+	MajorCands        []string // options tied for the top that reach the majority (the statement leaves ties open)
+	HasMajor          bool
+	OptType           int32
+	CreatedAt         int64
 }
 
 func (p *Prop) clone() *Prop {
@@ -146,10 +146,10 @@ type Model struct {
 	StateAt   map[int64]*sim.State // model snapshots in the implementation's dump format (for C19)
 
 	// per block
-	cur        int64
-	fees       *big.Int
-	proposer   string
-	Findings   []Finding
+	cur      int64
+	fees     *big.Int
+	proposer string
+	Findings []Finding
 	// accounting for C02: value legitimately created / destroyed in the current block
 	Minted  *big.Int // rewards withdrawn
 	Burnt   *big.Int // slashed stake + fees without proposer
@@ -159,7 +159,7 @@ type Model struct {
 	reasons                  map[string]map[string]bool
 	// Collided: unbonding stakes that share their ledger key (tx hash) with another unbonding stake — the
 	// statement treats them as two stakes; used only to classify a mismatch precisely.
-	Collided map[string]*Stake // owner -> stake
+	Collided        map[string]*Stake // owner -> stake
 	LostToCollision []*big.Int
 	EVM             EVMHook
 	punitive        bool // the current block carried evidence or missed signatures
@@ -208,7 +208,7 @@ func cloneParams(p map[string]*big.Int) map[string]*big.Int {
 }
 
 func (m *Model) P(k string) *big.Int { return m.Params[k] }
-func (m *Model) Pi(k string) int64  { return m.Params[k].Int64() }
+func (m *Model) Pi(k string) int64   { return m.Params[k].Int64() }
 
 func (m *Model) acct(a string) *Acct {
 	if x, ok := m.Acct[a]; ok {
@@ -442,21 +442,21 @@ type TxInfo struct {
 	RetData  []byte
 	SigOK    bool // the harness knows whether it signed this exact content with From's key for this chain
 	// payloads
-	UnstakeHash string
-	ReqAmt      *big.Int
+	UnstakeHash          string
+	ReqAmt               *big.Int
 	Start, Period, Apply int64
-	Options     []string
-	OptType     int32
-	VoteHash    string
-	Choice      int32
-	Name, URL   string
-	SenderPub   string
-	ToIsContract bool // the receiver carries a native code marker (model knowledge)
-	Created     string // address created by a successful deployment
-	TxIdx       int
-	Data        []byte
-	Logs        []string // the implementation's EVM log events, canonical strings
-	ErrLog      string
+	Options              []string
+	OptType              int32
+	VoteHash             string
+	Choice               int32
+	Name, URL            string
+	SenderPub            string
+	ToIsContract         bool   // the receiver carries a native code marker (model knowledge)
+	Created              string // address created by a successful deployment
+	TxIdx                int
+	Data                 []byte
+	Logs                 []string // the implementation's EVM log events, canonical strings
+	ErrLog               string
 }
 
 func (m *Model) isVal(a string) bool {
@@ -475,12 +475,14 @@ type EVMHook interface {
 	Deliver(m *Model, t *TxInfo)
 }
 
-func (m *Model) Report(prop, kind, site, format string, a ...interface{}) { m.find(prop, kind, site, format, a...) }
-func (m *Model) Touch(a, why string)                                     { m.touch(a, why) }
-func (m *Model) AddFee(x *big.Int)                                       { m.fees.Add(m.fees, x) }
-func (m *Model) Account(a string) *Acct                                  { return m.acct(a) }
-func (m *Model) Cur() int64                                              { return m.cur }
-func (m *Model) Proposer() string                                        { return m.proposer }
+func (m *Model) Report(prop, kind, site, format string, a ...interface{}) {
+	m.find(prop, kind, site, format, a...)
+}
+func (m *Model) Touch(a, why string)    { m.touch(a, why) }
+func (m *Model) AddFee(x *big.Int)      { m.fees.Add(m.fees, x) }
+func (m *Model) Account(a string) *Acct { return m.acct(a) }
+func (m *Model) Cur() int64             { return m.cur }
+func (m *Model) Proposer() string       { return m.proposer }
 
 // DeliverTx applies one delivered transaction, conditioned on the implementation's result.
 func (m *Model) DeliverTx(t *TxInfo) {
